@@ -106,6 +106,22 @@ def run(ctx, rep):
             if miss:
                 raise AnalysisBroken('command %s no longer reaches its required effects %s (analysis blind?)' % (cmd, sorted(miss)))
             rep.ok('R-C12-2', cmd, 'effects %s; %d contexts, %d functions' % (sorted(classes - ALWAYS), len(seen), len(fns)))
+    # touch: the only time-stamp written is the file's present second (re-read with fstat on the same descriptor) with a new
+    # non-zero nanosecond part, and only for files recorded with a zero nanosecond part
+    from ..guards import guards_of
+    rep.rule('R-C12-5', 'touch writes fmtime(f, <seconds just read by fstat(f)>, <non-zero nsec>) only under file->mtime_nsec == 0', 1)
+    t = P.fn('state_touch')
+    rep.analysed(t)
+    fm = list(t.calls('fmtime'))
+    ok5 = len(fm) == 1
+    det5 = ''
+    if ok5:
+        a_ = [t.expr(o) for o in fm[0].ops]
+        fs = [c for c in t.calls('fstat') if t.dominates(c, fm[0]) and t.expr(c.ops[0]) == a_[0]]
+        gs = guards_of(t, fm[0])
+        ok5 = bool(fs) and a_[1].startswith(t.expr(fs[-1].ops[1]).lstrip('&') + '.st_mtim') and a_[1].endswith('tv_sec') and ('file->mtime_nsec', False) in gs and (a_[2], True) in gs
+        det5 = 'fmtime(%s); fstat on the same descriptor first: %s' % (', '.join(a_), bool(fs))
+    rep.check(ok5, 'R-C12-5', 'state_touch: time written = present seconds + new non-zero nanoseconds, only for zero-nanosecond records', fm[0].loc() if fm else t.file, det5, function='state_touch', construct='touch time source')
     # fix removes, at exit, only files it created in this run: the flag behind that decision is sound
     from .C07 import rule_created_reset
     rule_created_reset(P, rep, 'R-C12-7')
